@@ -596,7 +596,7 @@ func init() {
 		Explain: "Structural necessary conditions of exact rank (DESIGN.md 5/C01): unit consistency of every index (E4), shift/mask pairing, rounding constants, exclusive-prefix accumulation over exactly the words of a block, builder stride vs reader shift, trailing/even-length entry, and the identity of the word/mask/offset used by Rank64/Rank128.",
 		NotDec:  []string{"that checkpoint + popcount(w & Mask[j]) - atRight*popcount(w) equals the rank (arithmetic identity)", "contents of the Mask table (built by an init loop)"},
 		Trusted: []string{"go/ssa construction", "math/bits.OnesCount64 is popcount"},
-		Quick:   []Config{cfgDefault}, Thorough: []Config{cfgDefault, cfg386},
+		Quick:   []Config{cfgDefault, cfg386}, Thorough: []Config{cfgDefault, cfg386},
 		Run: runC01,
 	})
 }
